@@ -47,6 +47,7 @@ namespace sim
     const uint32_t *dev = nullptr; // pairs (step, task)
     uint32_t site_count[8] = {0,0,0,0,0,0,0,0}; // library yield sites 0..7
     uint32_t preemptions = 0;   // forced decision points taken inside the code under test
+    bool preempt_on = false;    // the scenario asked for forced decision points
     uint64_t edges = 0;         // control-flow edges of the code under test executed while the scheduler was active
   };
 
